@@ -51,6 +51,40 @@ class APIGatewayDrv(Drv):
         return [self.h.ev(self.gw, "request", {"metadata": {"i": i, "route": route, "slow": op == "users_slow"}})]
 
 
+class APIGatewayShortTimeoutDrv(Drv):
+    """The gateway arms the route timeout AFTER the auth latency: route timeout L/2 < auth latency L, slow backend."""
+    family = "microservice"
+    covers = ("APIGateway", "RouteConfig")
+    ops = ("users", "users_slow")
+
+    def build(self, cfg):
+        self.b1 = _Svc("b1", cfg.L, self.h.out)
+        t = cfg.L / 2 if cfg.L > 0 else P(0.25)
+        routes = {"users": RouteConfig(name="users", backends=[self.b1], auth_required=True, timeout=t)}
+        self.gw = APIGateway("gw", routes=routes, auth_latency=cfg.L, auth_failure_rate=0.0)
+        return [self.b1, self.gw]
+
+    def request(self, i, op):
+        return [self.h.ev(self.gw, "request", {"metadata": {"i": i, "route": "users", "slow": op == "users_slow"}})]
+
+
+class SidecarShortTimeoutDrv(Drv):
+    """Request timeout L/2 below the service time L behind a 1-token/0.5 s limiter: timeouts, retries, circuit opening."""
+    family = "microservice"
+    covers = ("Sidecar",)
+    ops = ("request",)
+
+    def build(self, cfg):
+        self.svc = _Svc("svc", cfg.L, self.h.out)
+        t = cfg.L / 2 if cfg.L > 0 else P(0.25)
+        self.sc = Sidecar("sidecar", target=self.svc, circuit_failure_threshold=2, circuit_success_threshold=1,
+                          circuit_timeout=P(1.0), request_timeout=t, max_retries=2, retry_base_delay=P(0.25))
+        return [self.svc, self.sc]
+
+    def request(self, i, op):
+        return [self.h.ev(self.sc, "request", {"metadata": {"i": i}})]
+
+
 class IdempotencyStoreDrv(Drv):
     """Same idempotency key for every 'pay' (duplicates while in flight / after completion), TTL 1 s, cleanup 0.5 s."""
     family = "microservice"
@@ -163,4 +197,4 @@ class SidecarBackendOkDrv(Drv):
         return [self.h.ev(self.sc, "request", {"metadata": {"i": i}})]
 
 
-DRIVERS = [APIGatewayDrv, IdempotencyStoreDrv, OutboxRelayDrv, SagaDrv, SidecarDrv, SidecarBackendOkDrv]
+DRIVERS = [APIGatewayDrv, APIGatewayShortTimeoutDrv, SidecarShortTimeoutDrv, IdempotencyStoreDrv, OutboxRelayDrv, SagaDrv, SidecarDrv, SidecarBackendOkDrv]
